@@ -541,8 +541,14 @@ def _run_unit(ccls, case_name, case, res, goal_rlimit):
     ex.solve_all()
     res.paths = ex.paths
     res.solver_seconds = ex.solver_seconds
+    refuted_paths = [list(o.path) for o in ex.obligations if o.kind != "canary" and o.verdict == "refuted"]
     for ob in ex.obligations:
         if ob.kind == "canary":
+            if ob.verdict == "discharged" and any(list(ob.path)[:len(rp)] == rp for rp in refuted_paths):
+                # the path went on after a refuted obligation, which is assumed from there on: what follows may well be
+                # vacuous - the refutation is the verdict of this path, not a defect of the unit's hypotheses
+                res.canaries = getattr(res, "canaries", 0) + 1
+                continue
             if res.canary != "discharged":      # one vacuous path is enough to distrust the unit
                 res.canary = ob.verdict
             res.canaries = getattr(res, "canaries", 0) + 1
